@@ -57,6 +57,11 @@ type Cfg struct {
 	// ephemeral taint is not-ready:NoExecute with timeAdded; 2 the startup taint carries timeAdded and the ephemeral
 	// taint is unreachable:NoSchedule
 	TaintVariant int `json:"taintVariant"`
+	// NoSyncTaints: the node registers with the label karpenter.sh/do-not-sync-taints=true (Karpenter then does not
+	// sync the NodeClaim's taints onto it; the unregistered taint must still be removed before Registered)
+	NoSyncTaints bool `json:"noSyncTaints"`
+	// WrapCapErr: capacity errors of the provider come wrapped in a CreateError
+	WrapCapErr bool `json:"wrapCapErr"`
 }
 
 func startupTaintOnNode(v int, at time.Time) corev1.Taint {
@@ -114,6 +119,7 @@ type sim struct {
 	health *registrationhealth.Controller
 	np     *nodepoolhealth.State
 	pool   *v1.NodePool
+	cfg    Cfg
 	view   *v1.NodeClaim // the informer's copy: refreshed by every up-to-date reconcile, reused by stale ones
 }
 
@@ -150,7 +156,11 @@ func (s *sim) reconcile(st Step) {
 	}
 	s.w.Prov.CreateOutcomes = nil
 	if st.Prov != "" && st.Prov != "ok" {
-		s.w.Prov.CreateOutcomes = []string{st.Prov}
+		o := st.Prov
+		if s.cfg.WrapCapErr && (o == "ICE" || o == "NCNR") {
+			o += "w"
+		}
+		s.w.Prov.CreateOutcomes = []string{o}
 	}
 	s.w.Emit(trace.M{"e": "Begin", "controller": "nodeclaim.lifecycle", "object": claimName, "stale": st.Stale})
 	errS, panicked := "-", false
@@ -202,6 +212,9 @@ func (s *sim) step(cfg Cfg, st Step) error {
 			n.Spec.Taints = append(n.Spec.Taints, ephTaintOnNode(cfg.TaintVariant, w.Clock.Now()))
 		}
 		world.SetNodeReady(n, st.Ready, w.Clock.Now())
+		if cfg.NoSyncTaints {
+			n.Labels[v1.NodeDoNotSyncTaintsLabelKey] = "true"
+		}
 		if cfg.ExtRes {
 			q := resource.MustParse("0")
 			if st.Res {
@@ -289,10 +302,10 @@ func RunOne(b Behaviour, tw *trace.Writer) error {
 			ExtraRes:  map[string]int{extResName: 1},
 			Offerings: []world.OfferingSpec{{Zone: "zone-a", CapacityType: "on-demand", Price: 900, Available: true}}}))
 	}
-	s := &sim{w: w, ctx: world.Ctx()}
+	s := &sim{w: w, ctx: world.Ctx(), cfg: b.Cfg}
 	behJSON, _ := json.Marshal(b)
 	tw.Begin(trace.M{"module": "Lifecycle", "behJson": string(behJSON), "launchTimeout": int(nclifecycle.LaunchTimeout / time.Second), "regTimeout": 900,
-		"startupTaint": b.Cfg.StartupTaint, "extRes": b.Cfg.ExtRes, "taintVariant": b.Cfg.TaintVariant, "startupKey": startupKey, "extResName": extResName,
+		"startupTaint": b.Cfg.StartupTaint, "extRes": b.Cfg.ExtRes, "taintVariant": b.Cfg.TaintVariant, "noSyncTaints": b.Cfg.NoSyncTaints, "wrapCapErr": b.Cfg.WrapCapErr, "startupKey": startupKey, "extResName": extResName,
 		"claim": claimName, "pool": poolName})
 	w.Sink = tw.Emit
 	w.EnvCreate(world.NodeClass())
